@@ -1165,9 +1165,11 @@ func (s *Store) streamBackupDB(ctx context.Context, name string, remotePos ltx.P
 	}
 
 	// Check local replication position.
-	// If we haven't written anything yet then try to send data.
+	// If nothing has been written on either side there is nothing to do. An
+	// empty local database while the backup holds data is a backup that is
+	// ahead, which is handled below.
 	localPos := db.Pos()
-	if localPos.IsZero() {
+	if localPos.IsZero() && remotePos.IsZero() {
 		return localPos, nil
 	}
 
